@@ -1207,6 +1207,8 @@ def execute(plan, prop, trace):
                 outcomes.append("raised:" + type(e).__name__)
                 trace.ev("client", "op-raised", f"{step['op']}|{type(e).__name__}")
                 trace.state("done", step["op"], "raised", type(e).__name__, (fault or {}).get("kind"))
+                if not dirty and step["op"] in ("filtered", "getheaders", "block"):
+                    fail("C17", "M2", f"honest_{step['op']}_raised_{type(e).__name__}", f"honest peer, spec-built proof/headers, yet {step['op']} raised {type(e).__name__}: {e}")
                 if not dirty:
                     detail = f"raised_{step['op']}_{type(e).__name__}"
                     fail("C19", "P4", detail, f"operation {step['op']} raised {type(e).__name__}: {e} against an honest peer with only fragmentation/delay")
